@@ -115,6 +115,13 @@ func GenGoFile(rng *rand.Rand, o SrcOpts) (src string, annotated int) {
 	if class == "G2" || rng.Intn(3) == 0 {
 		sb.WriteString(otherDecl(rng, 99))
 	}
+	if class != "G0" && rng.Intn(4) == 0 {
+		// neighbouring fields (in one struct, in two structs) with byte-identical literal and annotation,
+		// as in two messages that both declare `int64 id = 1; // @tag valid:"required"`
+		line := "\tId int64 `protobuf:\"varint,1,opt,name=id,proto3\" json:\"id,omitempty\"` // @tag valid:\"required\"\n"
+		sb.WriteString("type DupFirst struct {\n" + line + "}\n\ntype DupSecond struct {\n" + line + strings.Replace(line, "\tId ", "\tId2 ", 1) + "}\n\n")
+		annotated += 3
+	}
 	return sb.String(), annotated
 }
 
